@@ -360,6 +360,7 @@ pub fn minimise(r: &Replay, budget: Duration) -> Replay {
 struct Aggregate {
     cells: u64,
     rejected: u64,
+    corpus_rejected: u64,
     rejected_reasons: BTreeMap<String, u64>,
     runs: u64,
     inconclusive: u64,
@@ -422,6 +423,11 @@ pub fn check(prop: &str, tier: Tier, verif_seed: u64) -> i32 {
                     let rep = run.report.unwrap();
                     *a.families.entry(rep.family.clone()).or_insert(0) += 1;
                     if let Some(why) = &rep.rejected {
+                        if rep.family == "corpus" {
+                            // many corpus programs are compile-failure tests; not a harness problem
+                            a.corpus_rejected += 1;
+                            continue;
+                        }
                         a.rejected += 1;
                         let key: String = why.chars().take(100).collect();
                         *a.rejected_reasons.entry(key).or_insert(0) += 1;
@@ -597,6 +603,7 @@ pub fn check(prop: &str, tier: Tier, verif_seed: u64) -> i32 {
             "cells": a.cells,
             "cells_planned": n_cells,
             "cells_rejected": a.rejected,
+            "corpus_programs_not_usable": a.corpus_rejected,
             "cells_rejected_reasons": a.rejected_reasons,
             "cell_processes_died": a.aborted.len(),
             "workload_families": a.families,
